@@ -12,9 +12,15 @@ _SPECS = [
     (1, 1), (1, 4), (3, 1), (3, 4), (28, 1),
     (['i', 'ii', 'iii'], ['a', 'b']),
     (['3', '1', '2'], 3),
+    ([' a', 'b ', 'a'], [' 1', '1 ', '1']),        # labels that differ only in surrounding whitespace
 ]
 PLATES = [pp.Plate(f"p{k}", '1 mL', rows=r, columns=c) for k, (r, c) in enumerate(_SPECS)]
 N_PLATES = len(PLATES)
+# history: for the custom-labelled plates, a second plate of the same shape whose labels are the same strings in another
+# order.  Every selector is first resolved on that twin (result ignored), then on the plate under test: what a label
+# means must depend on the plate it is applied to, not on what the process has resolved before.
+_TWIN_SPECS = {5: (['iii', 'i', 'ii'], ['b', 'a']), 6: (['2', '3', '1'], 3), 7: (['a', ' a', 'b '], ['1', ' 1', '1 '])}
+TWINS = {k: pp.Plate(f"p{k}", '1 mL', rows=r, columns=c) for k, (r, c) in _TWIN_SPECS.items()}
 
 
 def _row_labels(k: int) -> List[str]:
@@ -86,6 +92,11 @@ def _grid(rs, cs):
 
 def _got(k, selector):
     """well names selected by the real code, or REJECT if it raised"""
+    if k in TWINS:
+        try:
+            TWINS[k][selector].get()
+        except Exception:
+            pass
     try:
         sl = PLATES[k][selector]
         arr = sl.get()
